@@ -60,6 +60,7 @@ class State:
         s.ptr_lo = dict(getattr(self, 'ptr_lo', None) or {})
         s.env_epoch = getattr(self, 'env_epoch', 0)
         s.loop_mark = getattr(self, 'loop_mark', 0)
+        s.held = getattr(self, 'held', ())
         s.actions = getattr(self, 'actions', [])
         s.pending_action = getattr(self, 'pending_action', None)
         return s
@@ -150,7 +151,7 @@ class Exec:
     def old_ptr(self, term, st):
         """Wrap an Addr term that denotes a pointer existing now (not allocated later by us)."""
         lo = -st.nalloc
-        st.pc.append(z3.And(Addr.aid(term) >= lo, z3.Implies(Addr.aid(term) == 0, term == NIL)))
+        st.pc.append(z3.And(Addr.aid(term) >= lo, Addr.aid(term) < self.GLOBAL_BASE, z3.Implies(Addr.aid(term) == 0, term == NIL)))
         return PAddr(base=term, lo=lo)
 
     def zero(self, t):
@@ -312,7 +313,7 @@ class Exec:
             seen = st.ptr_lo = {}
         if seen.get(key) != lo:
             seen[key] = lo
-            st.pc.append(z3.And(Addr.aid(term) >= lo, z3.Implies(Addr.aid(term) == 0, term == NIL)))
+            st.pc.append(z3.And(Addr.aid(term) >= lo, Addr.aid(term) < self.GLOBAL_BASE, z3.Implies(Addr.aid(term) == 0, term == NIL)))
         return PAddr(base=term, lo=lo)
 
     def store(self, st, p, v):
@@ -400,6 +401,55 @@ class Exec:
     # ------------------------------------------------------------------------------------------
     # operands
     # ------------------------------------------------------------------------------------------
+    GLOBAL_BASE = 10 ** 9
+
+    def global_id(self, name):
+        names = sorted(self.prog.globals.keys())
+        return self.GLOBAL_BASE + names.index(name)
+
+    def init_globals(self, st):
+        """Package-level variables hold the values their package initialiser stores into them, provided no other
+        function of the program ever stores to them (checked here); otherwise they are left unconstrained."""
+        written = set()
+        for fn, f in self.prog.funcs.items():
+            if fn.endswith('.init'):
+                continue
+            der = {}
+            for b in f['blocks']:
+                for x in b['instrs']:
+                    if x['op'] in ('IndexAddr', 'FieldAddr') and x['x']['k'] == 'global':
+                        der[x['name']] = x['x']['n']
+                    if x['op'] == 'Store':
+                        a = x['addr']
+                        if a['k'] == 'global':
+                            written.add(a['n'])
+                        elif a['k'] == 'reg' and a['n'] in der:
+                            written.add(der[a['n']])
+        self.globals_written = written
+        for fn, f in self.prog.funcs.items():
+            if not fn.endswith('.init') or not f['blocks']:
+                continue
+            fr = Frame(f)
+            for b in f['blocks']:
+                if b['comment'] != 'init.start':
+                    continue
+                for x in b['instrs']:
+                    try:
+                        if x['op'] in ('Call', 'Jump', 'DebugRef'):
+                            continue
+                        if x['op'] == 'Store':
+                            a = x['addr']
+                            root = a['n'] if a['k'] == 'global' else fr.names.get(a.get('n'), (None,))[0]
+                            if a['k'] == 'global' and a['n'] in written:
+                                continue
+                            if a['k'] == 'global' and a['n'].endswith('init$guard'):
+                                continue
+                        self.simple(fr, x, st)
+                        if x['op'] in ('IndexAddr', 'FieldAddr') and x['x']['k'] == 'global':
+                            fr.names[x['name']] = (x['x']['n'],)
+                    except (EngineError, KeyError):
+                        continue
+
     def operand(self, fr, o, st):
         k = o['k']
         if k in ('reg', 'param', 'freevar'):
@@ -428,7 +478,7 @@ class Exec:
         if k == 'func':
             return V(o['t'], Clo(o['n'], []))
         if k == 'global':
-            return V(o['t'], PAddr(base=z3.Const('glob_' + mangle(o['n']), Addr), lo=0))
+            return V(o['t'], PAddr(cid=self.global_id(o['n'])))
         if k == 'builtin':
             return V('$builtin', o['n'])
         raise EngineError('operand ' + str(o))
@@ -871,7 +921,9 @@ class Exec:
         self.store(st, a.x, V(ins['val']['t'], v.x) if not isinstance(v.t, str) else v)
 
     def on_store(self, fr, ins, st, a, v):
-        pass
+        if isinstance(a.x, PAddr) and ins.get('op') == 'Store':
+            st.trace.append(('access', 'plain-store', a.x, self.line(ins), tuple(getattr(st, 'held', ()))))
+            self.on_access(st, 'plain-store', a.x, ins)
 
     def i_UnOp(self, fr, ins, st):
         x = self.operand(fr, ins['x'], st)
@@ -891,6 +943,39 @@ class Exec:
             raise EngineError('unop ' + tok)
 
     def on_load(self, fr, ins, st, a):
+        if isinstance(a.x, PAddr):
+            st.trace.append(('access', 'plain-load', a.x, self.line(ins), tuple(getattr(st, 'held', ()))))
+            self.on_access(st, 'plain-load', a.x, ins)
+
+    def on_access(self, st, kind, p, ins):
+        if self.spec is not None:
+            self.spec.access_discipline(self, st, kind, p, ins)
+
+    # ---- lock set (C13) --------------------------------------------------------------------------------------
+    def lock_id(self, p):
+        return p.term()
+
+    def acquire(self, st, p, ins, kind='lock'):
+        held = list(getattr(st, 'held', ()))
+        # one internal lock at a time: a second acquisition while holding one could deadlock (lock order)
+        self.oblige(st, 'C13/%s/lock.no-nesting@L%s' % (self.short_fn(), self.line(ins)), z3.BoolVal(len(held) == 0),
+                    tags=['C13'], kind='discipline')
+        held.append((self.lock_id(p), kind))
+        st.held = tuple(held)
+        st.trace.append(('acquire', p, self.line(ins)))
+
+    def release(self, st, p, ins, kind='lock'):
+        held = list(getattr(st, 'held', ()))
+        lid = self.lock_id(p)
+        idx = [i for i, (h, kd) in enumerate(held) if h.eq(lid)]
+        self.oblige(st, 'C13/%s/unlock.held@L%s' % (self.short_fn(), self.line(ins)), z3.BoolVal(bool(idx)), tags=['C13'],
+                    kind='discipline')
+        if idx:
+            del held[idx[-1]]
+        st.held = tuple(held)
+        st.trace.append(('release', p, self.line(ins)))
+
+    def on_cond_wait(self, st, p, ins):
         pass
 
     def bvfit(self, term, w):
@@ -941,7 +1026,7 @@ class Exec:
             if ry[2]:
                 # negative shift count panics
                 g = (b >= 0)
-                if not z3.is_true(z3.simplify(g)):
+                if ins is not None and not z3.is_true(z3.simplify(g)):
                     self.oblige(st, 'safety/%s/shift-count@L%s' % (self.short_fn(), self.line(ins) if ins else '?'), g,
                                 tags=['SAFE'], kind='safety')
                     st.pc.append(g)
@@ -975,6 +1060,10 @@ class Exec:
             return V(rt, a ^ b)
         if tok == '&^':
             return V(rt, a & ~b)
+        if tok in ('/', '%') and ins is None:
+            if tok == '/':
+                return V(rt, (a / b) if signed else z3.UDiv(a, b))
+            return V(rt, z3.SRem(a, b) if signed else z3.URem(a, b))
         if tok in ('/', '%'):
             g = b != 0
             self.oblige(st, 'safety/%s/div-zero@L%s' % (self.short_fn(), self.line(ins) if ins else '?'), g, tags=['SAFE'],
